@@ -100,7 +100,7 @@ impl Check for C06Check {
     }
     fn cases(&self, tier: Tier) -> u64 {
         match tier {
-            Tier::Quick => 3_000,
+            Tier::Quick => 12_000,
             Tier::Thorough => 100_000,
         }
     }
